@@ -234,7 +234,7 @@ class C18(Check):
                 streams.append({'text': gen_tree_text(rng), 'end': end, 'k': rng.randint(0, 20)})
             else:
                 streams.append({'text': gen_python(rng), 'end': end, 'k': rng.randint(0, 30)})
-        return {'driver': driver, 'lexer': rng.choice(['contextual', 'basic']), 'streams': streams}
+        return {'driver': driver, 'lexer': rng.choice(['contextual', 'basic']), 'streams': streams, 'tab_len': rng.choice([8, 8, 4, 1])}
 
     # ------------------------------------------------------------------ execution
     def _raw(self, plain, text):
@@ -268,8 +268,10 @@ class C18(Check):
         driver = plan['driver']
         log = []
         if driver == 'direct':
-            ind = W.make_postlex('tree')
-            names = dict(nl=NL, ind=IND, ded=DED, opens=OPEN, closes=CLOSE)
+            from sim import userobjs
+            tl = plan.get('tab_len', 8)
+            ind = {8: userobjs.TreeIndenter, 4: userobjs.TreeIndenter4, 1: userobjs.TreeIndenter1}[tl]()
+            names = dict(nl=NL, ind=IND, ded=DED, opens=OPEN, closes=CLOSE, tab_len=tl)
         elif driver == 'lark':
             ind = W.make_postlex('tree')
             p = Lark(W.G_IND, parser='lalr', lexer=plan['lexer'], postlex=ind)
